@@ -1,6 +1,6 @@
 /-
 Executable model of src/bgp/message/update.rs as coded (after the repairs F1,
-F2, F3, F22 and the `length()` repair listed in known_findings.jsonl):
+F2, F3, F22, F22b and the `length()` repair listed in known_findings.jsonl):
 `Header::parse`, `UpdateMessage::parse` / `from_octets`, `SessionConfig`,
 `PduParseInfo::from_session_config`, and every accessor named in the
 `observe_at` list of properties C01 / C02.
@@ -570,13 +570,16 @@ def Msg.hasMpNlri (m : Msg) : Outcome Bool :=
 
 /-- mirrors update.rs:506 `is_eor` (after the repair of F22: the MP_UNREACH_NLRI
 form is an End-of-RIB only when the message holds nothing else that carries
-NLRI: no conventional section and no MP_REACH_NLRI) -/
+NLRI: no conventional section and no MP_REACH_NLRI; and after the repair of
+F22b: "no withdrawn routes" is `NlriEnumIter::is_empty`, i.e. no octets after
+AFI/SAFI, not "the iterator yields nothing", which an iterator of an
+unsupported family does whatever the attribute holds) -/
 def Msg.isEor (m : Msg) : Outcome (Option (Nat × Nat)) :=
   if m.length = 23 then .ok (some (1, 1))
   else
     match m.mpWd with
     | .ok (some (ty, bs)) =>
-      if (enumItems ty bs).1.isEmpty && m.wd.isEmpty && m.ann.isEmpty then
+      if bs.isEmpty && m.wd.isEmpty && m.ann.isEmpty then
         match m.hasMpNlri with
         | .ok false => .ok (some ty.afiSafi)
         | .ok true => .ok none
